@@ -876,15 +876,37 @@ func init() {
 					}
 				}
 			}
+			// the ways an application can describe its candidates, and menu-complete
+			nv := 2
+			if tier == "thorough" {
+				nv = 3
+			}
+			for _, style := range []string{"described", "nospace", "tags", "suffix", "icase", "menu-complete"} {
+				for _, m := range []int{1, 2, 3} {
+					for _, ab := range []string{"0", "1"} {
+						if m == 1 && ab == "1" {
+							continue
+						}
+						kv := []string{"n", itoa(nv), "m", itoa(m), "k", "2", "abort", ab, "style", style}
+						if style == "menu-complete" {
+							kv = []string{"n", itoa(nv), "m", itoa(m), "k", "2", "abort", ab, "cmd", "menu-complete"}
+						}
+						j := mkJob(".ZZ_C14_Local", shellSetup, kv...)
+						j.Reach = []string{"candidate-inserted"}
+						jobs = append(jobs, j)
+					}
+				}
+			}
 			return jobs
 		},
 		Assumptions: []string{
 			"buffer of n symbolic characters over {a, b, blank, single quote, é}, cursor anywhere; the application completer returns m candidates that extend the blank-delimited word before the cursor; TAB (complete) is typed k times, optionally followed by Ctrl-C",
 			"word start = after the last blank before the cursor (independent reference); a unique candidate may be accepted at once with a trailing space",
+			"candidate styles: plain values, values with descriptions, NoSpace(), two tags (groups), Suffix(\"/\") (the word becomes value + suffix), candidates matching only with completion-ignore-case on, and menu-complete instead of complete",
 			"the display engine runs unstubbed (menus are built and printed for real, output discarded); the terminal answers cursor-position queries with ESC[1;1R",
 		},
 		Stubs:  []string{"tty ioctls", "stdin = zzverif.Script", "stdout discarded"},
-		Bounds: map[string]string{"quick": "n <= 2, m <= 3 candidates, k <= 2 TABs", "thorough": "n <= 3"},
+		Bounds: map[string]string{"quick": "n <= 2, m <= 3 candidates, k <= 2 TABs; six candidate styles at n = 2", "thorough": "n <= 3"},
 		Rule:   "one state per completed symbolic path",
 		IgnoreKinds: []string{"panic", "hang", "deadlock", "spin"},
 	}
